@@ -1223,4 +1223,52 @@ theorem eviction_disk_only_would_reuse :
 
 end Neg
 
+/-! ## Round 12 follow-up: a cached bucket released under a lock-free reader
+
+`NewIndexKVStore` gives the LRU bucket cache an eviction callback that calls `TrieBucket.Release` (the bucket's
+tries go back to a `sync.Pool`); `getOrCreateValue` calls `bucket.GetValue` on a cached bucket without any lock;
+`Flush` purges the cache. Witness case 28 of the harness runs the schedule on the real code. -/
+
+namespace Neg
+
+/-- one value `v = 7` under two tag keys (ids 0 and 1), flushed; a reader of (tag key 0, v) holds the cached
+bucket, a flush purges and releases it, the bucket of tag key 1 is loaded into the recycled trie: the reader
+answers 1 — the id of (tag key 1, v) — while every other caller of (tag key 0, v) is answered 0 -/
+theorem bucket_released_under_reader :
+    let c : Cfg := { currentCfg with kvCacheReleasesOnEvict := true }
+    let nd := run c {} [.tagValue 0 7, .tagValue 1 7, .metaPrepare, .metaFlush, .tagValue 0 9, .metaPrepare, .metaFlush]
+    (nd.bucketReleaseRace c 0 7 1).2 = .id 1 ∧ (nd.genTagValueID c 0 7).2 = .id 0 := by decide
+
+/-- the same schedule when nothing is released on eviction: the reader answers like everybody else -/
+theorem bucket_kept_under_reader :
+    let c : Cfg := { currentCfg with kvCacheReleasesOnEvict := false }
+    let nd := run c {} [.tagValue 0 7, .tagValue 1 7, .metaPrepare, .metaFlush, .tagValue 0 9, .metaPrepare, .metaFlush]
+    (nd.bucketReleaseRace c 0 7 1).2 = .id 0 := by decide
+
+end Neg
+
+/-- what holds for a bucket cache that releases on eviction / that does not -/
+def BucketReleaseVerdict : Bool → Prop
+  | true =>
+      let c : Cfg := { currentCfg with kvCacheReleasesOnEvict := true }
+      let nd := run c {} [.tagValue 0 7, .tagValue 1 7, .metaPrepare, .metaFlush, .tagValue 0 9, .metaPrepare, .metaFlush]
+      (nd.bucketReleaseRace c 0 7 1).2 = .id 1 ∧ (nd.genTagValueID c 0 7).2 = .id 0
+  | false => ∀ (c : Cfg), c.kvCacheReleasesOnEvict = false → ∀ (nd : Node) (tk v other : Nat),
+      nd.bucketReleaseRace c tk v other = nd.genTagValueID c tk v
+
+/-- **bucket_release_verdict**: decided for the eviction callback /repo's `NewIndexKVStore` has now (regenerated
+fact `kvNewStoreEvictCalls`) -/
+theorem bucket_release_verdict : BucketReleaseVerdict currentCfg.kvCacheReleasesOnEvict := by
+  cases h : currentCfg.kvCacheReleasesOnEvict with
+  | true => exact Neg.bucket_released_under_reader
+  | false =>
+    intro c hc nd tk v other
+    unfold Node.bucketReleaseRace
+    rw [hc]; rfl
+
+/-- the callback is read from the source: either it calls `value.Release` and nothing else, or there is none -/
+theorem bucket_release_tie :
+    (C09.kvNewStoreEvictCalls = ["value.Release"] ∧ currentCfg.kvCacheReleasesOnEvict = true) ∨
+    (C09.kvNewStoreEvictCalls = [] ∧ currentCfg.kvCacheReleasesOnEvict = false) := by decide
+
 end LinVerif.Props.C09
